@@ -13,6 +13,8 @@ MODE = {"bounded": None, "side": []}
 
 def coerce(v, ty: Ty, st=None):
     """Convert v (V | K | STuple) to a V of static type ty."""
+    if ty == T.SINK:
+        return v if isinstance(v, V) and v.ty == T.SINK else fresh(T.SINK, "sink")   # anything may flow into a sink
     if isinstance(v, K):
         c = v.v
         if c is None:
